@@ -232,15 +232,17 @@ fn rename_edits(
                         // 'super' is a way to get at the symbol, not its name
                         return None;
                     }
-                    // An import records the whole of 'name as alias': only the name is to be replaced
-                    let is_aliased = text
-                        .strip_prefix(old_name.as_str())
-                        .map(|rest| rest.starts_with(char::is_whitespace))
-                        .unwrap_or_default();
-                    let span = match is_aliased {
-                        true => dl.span.subspan(0, old_name.as_str().len() as u64),
-                        false => dl.span,
-                    };
+                    // An import records the whole of 'scope.name as alias': only the name is to be replaced
+                    let path_len = text.split_whitespace().next().unwrap_or_default().len();
+                    let name = text[..path_len].rsplit('.').next().unwrap_or_default();
+                    if name != old_name.as_str() {
+                        // The symbol goes by another name here (the alias an import gave it): that name stays
+                        return None;
+                    }
+                    let span = dl
+                        .span
+                        .subspan((path_len - name.len()) as u64, path_len as u64);
+                    let is_aliased = text.len() != name.len();
                     Some((dl, span, is_aliased))
                 })
                 .map(|(dl, span, is_aliased)| {
